@@ -899,6 +899,10 @@ def build(unit_name, sl, repo, outfile):
     cdir = os.path.join(os.path.dirname(os.path.abspath(__file__)), '..', 'contracts')
     for f in unit['contracts']:
         c.load(os.path.join(cdir, f))
+    for g in unit.get('gen_preludes', []):
+        ent = g(repo)
+        if ent:
+            c.preludes.append([ent[0], ent[1], ent[2].split('\n')])
     ex = Extractor(repo, unit, sl, c)
     text = ex.run()
     with open(outfile, 'w') as fh:
